@@ -608,12 +608,45 @@ def series_obs(fn):
     return f'(Ok ({lit.vlist(ls)}, {lit.vlist(vs)}))', {'labels': repr(ls), 'values': repr(vs), 'dtype': str(r.dtype)}, r
 
 
+def _is_fill_bool(v, opname):
+    return isinstance(v, (bool, np.bool_)) and bool(v) == (opname == 'ne')
+
+
+def outcome_series(r, err_cls, opname, la, lb):
+    """KIND of outcome of a Series operator, for the known-finding match: the exception class, 'bool-at-unmatched' (a result
+    whose every unmatched label holds exactly the Boolean a NaN comparison gives), or 'other'."""
+    if r is None:
+        return 'raises:' + str(err_cls)
+    both = set(la) & set(lb)
+    for l, v in zip(lit.labels(r.index), lit.array_vals(r.values)):
+        if l not in both and not _is_fill_bool(v, opname):
+            return 'other'
+    return 'bool-at-unmatched'
+
+
+def outcome_frame(fn, opname, has_a, has_b):
+    """The same for a Frame result; has_a / has_b(row label, column label) say whether an operand holds the cell."""
+    import warnings
+    try:
+        with warnings.catch_warnings():
+            warnings.simplefilter('ignore')
+            r = fn()
+    except Exception as e:  # noqa
+        return 'raises:' + lit.err_class(e)
+    rows_ = lit.labels(r.index)
+    for cl, a in zip(lit.labels(r.columns), r.iter_array(axis=0)):
+        for rl, v in zip(rows_, lit.array_vals(a)):
+            if not (has_a(rl, cl) and has_b(rl, cl)) and not _is_fill_bool(v, opname):
+                return 'other'
+    return 'bool-at-unmatched'
+
+
 def series_pair_cases(ctx, sa, sb, opname, kind, stratum):
     """One Series op Series evaluation -> cases (full property; matched part next to the known finding)."""
     dunder, opcoq, swap, okind = BINOPS[opname]
     la, lb = lit.labels(sa.index), lit.labels(sb.index)
     va, vb = lit.array_vals(sa.values), lit.array_vals(sb.values)
-    obs, odesc, _ = series_obs(lambda: getattr(sa, dunder)(sb))
+    obs, odesc, r_obs = series_obs(lambda: getattr(sa, dunder)(sb))
     hier = sa.index.depth > 1
     unmatched = set(la) != set(lb)
     ctx.count(f'series:op:{opname}', f'series:labels:{kind}', f'series:values:{sa.dtype.kind}{sb.dtype.kind}',
@@ -629,6 +662,8 @@ def series_pair_cases(ctx, sa, sb, opname, kind, stratum):
         tags['finding'] = F_CMP
     if unmatched and okind == 'logic':
         tags['finding'] = F_LOGIC
+    if 'finding' in tags:      # the entry excuses only the recorded KIND of outcome (bool at unmatched labels / TypeError)
+        tags['outcome'] = outcome_series(r_obs, odesc, opname, la, lb)
     nontrivial = len(la) > 0 and len(lb) > 0 and la != lb
     yield Case(stratum, desc, m=m, s=f'SS {args} {data}', tags=tags, nontrivial=nontrivial)
     if unmatched and okind == 'cmp':
@@ -924,6 +959,9 @@ def frame_pair_cases(ctx, fa, fb, dta, dtb, opname, stratum):
         tags['finding'] = F_CMP
     elif unmatched and okind == 'logic':
         tags['finding'] = F_LOGIC
+    if 'finding' in tags:
+        sia, sib, sca, scb = set(ia), set(ib), set(ca), set(cb)
+        tags['outcome'] = outcome_frame(lambda: getattr(fa, dunder)(fb), opname, lambda rl, cl: rl in sia and cl in sca, lambda rl, cl: rl in sib and cl in scb)
     ctx.count(f'frame:op:{opname}', f'frame:layouts:{zoo.layout_str(zoo.layout_of(fa))}/{zoo.layout_str(zoo.layout_of(fb))}',
               'frame:index-' + ('equal' if ia == ib else 'permuted' if set(ia) == set(ib) else 'disjoint' if not set(ia) & set(ib) else 'overlap'),
               'frame:columns-' + ('equal' if ca == cb else 'permuted' if set(ca) == set(cb) else 'disjoint' if not set(ca) & set(cb) else 'overlap'))
@@ -1034,6 +1072,10 @@ def frame_series_cases(ctx):
             tags['finding'] = F_CMP
         if unmatched and okind == 'logic':
             tags['finding'] = F_LOGIC
+        if 'finding' in tags:
+            sls = set(ls)
+            tags['outcome'] = outcome_frame(lambda: getattr(target, dunder)(sr), opname, lambda rl, cl: True,
+                                            (lambda rl, cl: rl in sls) if axis1 else (lambda rl, cl: cl in sls))
         ctx.count(f'frame-series:axis{int(axis1)}', f'frame-series:op:{opname}', f'frame-series:{mode}')
         lsl, vsl = lit.labels(sr.index), lit.array_vals(sr.values)
         m = (f'MFS {opcoq} {lit.b(swap)} {lit.b(axis1)} {fin_lit(fa)} {lit.dtype(sr.index.values.dtype)} {lit.dtype(sr.dtype)} false '
@@ -1461,8 +1503,14 @@ def datetime_unit_cases(ctx):
                             fail = f'at {k}: {v}, alignment prescribes {"the missing marker" if w is None else w}'
                             break
                 obs = repr(sorted(got.items()))
+                # recorded KIND of outcome: right labels, right missing pattern, the same values paired with other labels
+                nan_ok = set(got) == set(spec) and all((spec[k] is None) == (got[k] != got[k]) for k in spec)
+                total_ok = nan_ok and sum(v for v in got.values() if v == v) == sum(w for w in spec.values() if w is not None)
+                outcome = 'values-mispaired' if (fail is not None and total_ok) else ('ok' if fail is None else 'other')
             except Exception as e:  # noqa
-                obs, fail = type(e).__name__, f'raised {type(e).__name__}: {e}'
+                obs, fail, outcome = type(e).__name__, f'raised {type(e).__name__}: {e}', 'raises:' + lit.err_class(e)
+            if 'finding' in tags:
+                tags['outcome'] = outcome
             ctx.count('datetime-units')
             yield Case('api:series-op-series:datetime-units',
                        {'call': f'Series({xv}, index={xc(xl).__class__.__name__}({xl})) + Series({yv}, index={yc(yl).__class__.__name__}({yl}))',
@@ -1518,8 +1566,11 @@ def route_cases(ctx):
         else:
             fail = check(r)
             obs = repr(r.values.tolist())[:300] if hasattr(r, 'values') else repr(r)
+        tg = dict(tags or {}, route=kind)
+        if 'finding' in tg:        # the entry excuses only the recorded exception class
+            tg['outcome'] = ('raises:' + lit.err_class(e)) if e is not None else 'result'
         ctx.count('route:' + kind)
-        return Case('api:route:' + kind, {'call': call, 'observed': obs}, py_fail=fail, tags=dict(tags or {}, route=kind))
+        return Case('api:route:' + kind, {'call': call, 'observed': obs}, py_fail=fail, tags=tg)
 
     # ---- 1. string cells -------------------------------------------------------------------------------------------
     labels = ('x', 'y', 'z')
